@@ -1,12 +1,246 @@
 /-
   UnytModel.Ops.C16 — opcodes of the C16 model (prefix `c16.`).
+
+  Wire formats: a shape is `()` or `2x3x4`; an int list is `()` or `0,-1`; `none` is None;
+  an index tuple is `;`-separated items
+      `i:<int>`  `s:<start|_>:<stop|_>:<step>`  `e`  `n`  `m:<shape>:<ntrue>`  `f:<shape>:<lo>:<hi>`
+  (the empty tuple is `()`); classes are the `PyCls.str` names.
+  Replies: `ok\t…` or `err\t<ExceptionName>`.
 -/
 import UnytModel.DriverBase
+import UnytModel.ResultClass
+import UnytModel.Generated.C16Tables
+import UnytModel.Ref.C16
 
 namespace Unyt
+namespace C16Wire
+open Shape
 
-def opsC16 : Handler := fun _st fields =>
+def parseNatList (sep : String) (s : String) : Option (List Nat) :=
+  if s == "()" then some [] else (s.splitOn sep).mapM String.toNat?
+
+def parseShape (s : String) : Option Shape := parseNatList "x" s
+
+def parseIntList (s : String) : Option (List Int) :=
+  if s == "()" then some [] else (s.splitOn ",").mapM String.toInt?
+
+def parseOptIntList (s : String) : Option (Option (List Int)) :=
+  if s == "none" then some none else (parseIntList s).map some
+
+def parseOptInt (s : String) : Option (Option Int) :=
+  if s == "_" then some none else s.toInt?.map some
+
+def shapeStr (s : Shape) : String :=
+  if s.isEmpty then "()" else "x".intercalate (s.map toString)
+
+def parseIx (s : String) : Option Ix :=
+  match s.splitOn ":" with
+  | ["i", v] => v.toInt?.map Ix.int
+  | ["s", a, b, c] => do
+    let a ← parseOptInt a
+    let b ← parseOptInt b
+    let c ← c.toInt?
+    some (Ix.slice a b c)
+  | ["e"] => some Ix.ellipsis
+  | ["n"] => some Ix.newaxis
+  | ["m", sh, nt] => do
+    let sh ← parseShape sh
+    let nt ← nt.toNat?
+    some (Ix.mask sh nt)
+  | ["f", sh, lo, hi] => do
+    let sh ← parseShape sh
+    let lo ← lo.toInt?
+    let hi ← hi.toInt?
+    some (Ix.fancy sh lo hi)
+  | _ => none
+
+def parseIxs (s : String) : Option (List Ix) :=
+  if s == "()" then some [] else (s.splitOn ";").mapM parseIx
+
+def resOut (r : Except SErr Res) : String :=
+  match r with
+  | .ok r => s!"ok\t{r.cls.str}\t{shapeStr r.shape}"
+  | .error e => s!"err\t{e.str}"
+
+def shapeOut (r : Except SErr Shape) : String :=
+  match r with
+  | .ok s => s!"ok\t{shapeStr s}"
+  | .error e => s!"err\t{e.str}"
+
+def parseMethod (m axes keep : String) : Option UMethod :=
+  match m with
+  | "call" => some .call
+  | "accumulate" => some .accumulate
+  | "outer" => some .outer
+  | "matmul" => some .matmul
+  | "vecdot" => some .vecdot
+  | "reduce" => do
+    let a ← parseOptIntList axes
+    let k ← parseBool keep
+    some (.reduce a k)
+  | _ => none
+
+/-- operands: `cls@shape|cls@shape` -/
+def parseOps (s : String) : Option (List (PyCls × Shape)) :=
+  (s.splitOn "|").mapM (fun item =>
+    match item.splitOn "@" with
+    | [c, sh] => do
+      let c ← PyCls.parse c
+      let sh ← parseShape sh
+      some (c, sh)
+    | _ => none)
+
+def parseNewInput (k a b : String) : Option NewInput :=
+  match k with
+  | "pyscalar" => some .pyscalar
+  | "npnumber" => some .npnumber
+  | "ndarray" => (parseShape a).map .ndarray
+  | "unyt" => do
+    let c ← PyCls.parse a
+    let s ← parseShape b
+    some (.unyt c s)
+  | "list" => (parseShape a).map .list
+  | "listOfUnyt" => do
+    let n ← a.toNat?
+    let e ← parseShape b
+    some (.listOfUnyt n e)
+  | "emptyList" => some .emptyList
+  | "nonNumeric" => some .nonNumeric
+  | _ => none
+
+def newOut (r : Except SErr NewRes) : String :=
+  match r with
+  | .ok r => s!"ok\t{r.res.cls.str}\t{shapeStr r.res.shape}\t{if r.sharesInput then 1 else 0}"
+  | .error e => s!"err\t{e.str}"
+
+def parseViewOp (k a : String) : Option ViewOp :=
+  match k with
+  | "squeeze" => some .squeeze
+  | "squeezeAxis" => a.toInt?.map .squeezeAxis
+  | "transpose" => some .transpose
+  | "transposeAxes" => (parseNatList "," a).map .transposeAxes
+  | "ravel" => some .ravel
+  | "expandDims" => a.toNat?.map .expandDims
+  | "reshape" => (parseIntList a).map .reshape
+  | "repeat" => a.toNat?.map .repeat_
+  | _ => none
+
+/-- list elements `value,scale,offset,dim` separated by `|` (dim in the `Dim.parse` format,
+    commas replaced by `/`… the dimension is sent as an opaque tag resolved through `Dim.parse`
+    with `;` separators) -/
+def parseCoItems (s : String) : Option (List (CoItem Float)) :=
+  (s.splitOn "|").mapM (fun item =>
+    match item.splitOn "~" with
+    | [v, sc, o, d] => do
+      let v ← fb v
+      let sc ← fb sc
+      let o ← fb o
+      let d ← Dim.parse d
+      some ⟨v, sc, o, d⟩
+    | _ => none)
+
+def unitNeFloat (a b : CoItem Float) : Bool :=
+  !(Float.isclose a.scale b.scale && Float.isclose a.offset b.offset && a.dim == b.dim)
+
+end C16Wire
+
+open C16Wire Shape in
+def stepC16 (fields : List String) : Option String :=
   match fields with
+  | ["c16.size", s] => (parseShape s).map (fun s => s!"ok\t{size s}")
+  | ["c16.bcast", a, b] => do
+    let a ← parseShape a
+    let b ← parseShape b
+    some (match broadcast a b with | some r => s!"ok\t{shapeStr r}" | none => "err\tValueError")
+  | ["c16.reduce", s, axes, keep] => do
+    let s ← parseShape s
+    let a ← parseOptIntList axes
+    let k ← parseBool keep
+    some (shapeOut (reduceAxes s a k))
+  | ["c16.index", s, ixs] => do
+    let s ← parseShape s
+    let ixs ← parseIxs ixs
+    some (shapeOut (index s ixs))
+  | ["c16.view", cls, s, k, a] => do
+    let c ← PyCls.parse cls
+    let s ← parseShape s
+    let op ← parseViewOp k a
+    some (resOut (viewOp c s op))
+  | ["c16.qreshape", cls, s, arg] => do
+    let c ← PyCls.parse cls
+    let s ← parseShape s
+    let a ← if arg == "empty" then some ReshapeArg.emptyOrNone else (parseIntList arg).map ReshapeArg.dims
+    some (resOut (quantityReshape c s a))
+  | ["c16.binclass", a, b] => do
+    let a ← PyCls.parse a
+    let b ← PyCls.parse b
+    some (match binaryReturnClass a b with | .ok c => s!"ok\t{c.str}" | .error e => s!"err\t{e.str}")
+  | ["c16.ufunc", m, axes, keep, unitNone, multiOut, mulIsOne, ops] => do
+    let m ← parseMethod m axes keep
+    let un ← parseBool unitNone
+    let mo ← parseBool multiOut
+    let m1 ← parseBool mulIsOne
+    let ops ← parseOps ops
+    some (resOut (ufuncResult ⟨m, un, mo, m1, ops⟩))
+  | ["c16.unitmul", kindOk, s] => do
+    let k ← parseBool kindOk
+    let s ← parseShape s
+    some (resOut (unitMulData k s))
+  | ["c16.handler", rule, s] => do
+    let r ← HRule.parse rule
+    let s ← parseShape s
+    some (match handlerClass r s with | some r => resOut (.ok r) | none => "ok\tnone\t()")
+  | ["c16.handlerrules", name] =>
+    -- the regenerated return-rule list of a handler (cross-check of the translator)
+    some (match Generated.c16HandlerRules.find? (·.1 == name) with
+      | some (_, rs) => s!"ok\t{",".intercalate (rs.map HRule.str)}"
+      | none => "none")
+  | ["c16.getitem", cls, s, ixs] => do
+    let c ← PyCls.parse cls
+    let s ← parseShape s
+    let ixs ← parseIxs ixs
+    -- units are tags: 1 = the parent's unit, 0 = NULL_UNIT; the parent is named "parent"
+    let p : Obj Nat := ⟨c, s, ⟨1, some "parent"⟩⟩
+    some (match getitem 0 p ixs with
+      | .ok o => s!"ok\t{o.cls.str}\t{shapeStr o.shape}\t{o.md.units}\t{o.md.name.getD "None"}\t{if isBasic ixs then 1 else 0}"
+      | .error e => s!"err\t{e.str}")
+  | ["c16.iter", cls, s] => do
+    let c ← PyCls.parse cls
+    let s ← parseShape s
+    let p : Obj Nat := ⟨c, s, ⟨1, some "parent"⟩⟩
+    some (match iterate 0 p with
+      | .error e => s!"err\t{e.str}"
+      | .ok items =>
+        let strs := items.map (fun it => match it with
+          | .ok o => s!"{o.cls.str}@{shapeStr o.shape}@{o.md.units}@{o.md.name.getD "None"}"
+          | .error e => e.str)
+        s!"ok\t{items.length}\t{"|".intercalate strs.eraseDups}")
+  | ["c16.new", which, cls, k, a, b, bypass] => do
+    let c ← PyCls.parse cls
+    let inp ← parseNewInput k a b
+    let bp ← parseBool bypass
+    if which == "array" then some (newOut (arrayNew c inp bp))
+    else if which == "quantity" then some (newOut (quantityNew c inp bp))
+    else none
+  | ["c16.coerce", items] => do
+    let items ← parseCoItems items
+    some (match coerceList unitNeFloat items with
+      | .ok (vals, some ff) => s!"ok\t{bitsStr ff.scale}\t{bitsStr ff.offset}\t{ff.dim.str}\t{",".intercalate (vals.map bitsStr)}"
+      | .ok (_, none) => "ok\tempty"
+      | .error e => s!"err\t{e.str}")
+  | ["c16.accessor", name] =>
+    some (match Generated.c16Accessors.find? (·.1 == name) with
+      | some (_, rel, cls) => s!"ok\t{rel.str}\t{cls}"
+      | none => "none")
+  | ["c16.refaccessor", name] =>
+    some (match Ref.c16Accessors.find? (·.1 == name) with
+      | some (_, rel) => s!"ok\t{rel.str}"
+      | none => "none")
+  | _ => none
+
+def opsC16 : Handler := fun st fields =>
+  match fields with
+  | op :: _ => if op.startsWith "c16." then (stepC16 fields).map (fun r => (st, r)) else none
   | _ => none
 
 end Unyt
